@@ -2,6 +2,11 @@
   The re-evaluator computes what Python computes: generalised statement (for a predicate `keep` that
   is true on the ids outside comprehension scopes and false on the ids inside), by mutual structural
   induction following `pyEval` / `visit`.
+
+  Second version: the visitor visits a keyed dictionary item value-first and a formatted value specification-first,
+  so its log is in general a PERMUTATION of Python's; it is EQUAL to Python's when the expression is `orderFaithful`.
+  Both statements are proved at once: `LogRel strict a b` is `a = b` for `strict = true` and `a.Perm b` otherwise,
+  and the theorem assumes `strict = true → e.orderFaithful = true`.
 -/
 import IcontractModel.Lemmas.ReevalLog
 namespace Icontract.Ex
@@ -22,18 +27,118 @@ theorem harvest_out (ops : Ops) (bi : List (String × Val)) (tbl : Tbl) (es : Li
     (harvest ops bi tbl es).out = .ok () := by
   cases es <;> simp [harvest]
 
+/-! ### the relation between the two logs -/
+
+/-- equality when `strict`, permutation otherwise -/
+def LogRel (strict : Bool) (a b : Log) : Prop := if strict = true then a = b else a.Perm b
+
+theorem LogRel.refl (s : Bool) (a : Log) : LogRel s a a := by
+  unfold LogRel; split
+  · rfl
+  · exact List.Perm.refl _
+
+theorem LogRel.append {s : Bool} {a b c d : Log} (h1 : LogRel s a b) (h2 : LogRel s c d) :
+    LogRel s (a ++ c) (b ++ d) := by
+  unfold LogRel at *
+  split
+  · next hs => rw [if_pos hs] at h1 h2; rw [h1, h2]
+  · next hs => rw [if_neg hs] at h1 h2; exact h1.append h2
+
+theorem LogRel.cons {s : Bool} {a b : Log} (x : Nat × Val) (h : LogRel s a b) : LogRel s (x :: a) (x :: b) :=
+  LogRel.append (LogRel.refl s [x]) h
+
+theorem LogRel.perm {s : Bool} {a b : Log} (h : LogRel s a b) : a.Perm b := by
+  unfold LogRel at h
+  split at h
+  · rw [h]
+  · exact h
+
+theorem LogRel.eq {a b : Log} (h : LogRel true a b) : a = b := by
+  simpa [LogRel] using h
+
+/-- `k: v` - Python: key, value; the visitor: value, key -/
+theorem LogRel.swap3 {fk fe fr l1 l2 l3 : Log} (h1 : LogRel false fk l1) (h2 : LogRel false fe l2)
+    (h3 : LogRel false fr l3) : LogRel false (fe ++ (fk ++ fr)) (l1 ++ (l2 ++ l3)) := by
+  have p1 := h1.perm; have p2 := h2.perm; have p3 := h3.perm
+  simp only [LogRel, Bool.false_eq_true, if_false]
+  rw [← List.append_assoc, ← List.append_assoc]
+  exact (List.perm_append_comm.trans (p1.append p2)).append p3
+
+theorem LogRel.swap2 {fa fb l1 l2 : Log} (h1 : LogRel false fa l1) (h2 : LogRel false fb l2) :
+    LogRel false (fb ++ fa) (l1 ++ l2) := by
+  have p1 := h1.perm; have p2 := h2.perm
+  simp only [LogRel, Bool.false_eq_true, if_false]
+  exact List.perm_append_comm.trans (p1.append p2)
+
+/-- closes `LogRel s (a₁ ++ (a₂ ++ ...)) (b₁ ++ (b₂ ++ ...))` from the hypotheses `LogRel s aᵢ bᵢ` -/
+macro "logrel" : tactic =>
+  `(tactic| repeat' (first | assumption | exact LogRel.refl _ _ | apply LogRel.append | apply LogRel.cons))
+
+/-! ### keywords -/
+
+/-- the visitor's keyword table holding real values only -/
+def kwSome (p : String × Val) : String × Option Val := (p.1, some p.2)
+
+theorem any_isNone_map_kwSome (l : List (String × Val)) : (l.map kwSome).any (fun p => p.2.isNone) = false := by
+  induction l with
+  | nil => rfl
+  | cons a l ih => simp only [List.map_cons, List.any_cons, ih, kwSome, Option.isNone_some, Bool.or_false]
+
+theorem filterMap_map_kwSome (l : List (String × Val)) :
+    (l.map kwSome).filterMap (fun p => p.2.map (fun v => (p.1, v))) = l := by
+  induction l with
+  | nil => rfl
+  | cons a l ih => simpa [kwSome] using ih
+
+theorem any_key_map_kwSome (l : List (String × Val)) (k : String) :
+    (l.map kwSome).any (fun p => p.1 == k) = l.any (fun p => p.1 == k) := by
+  induction l with
+  | nil => rfl
+  | cons a l ih => simp only [List.map_cons, List.any_cons, ih, kwSome]
+
+/-- a keyword that was not there yet is appended -/
+theorem kwPut_fresh (acc : List (String × Val)) (k : String) (v : Val) (h : acc.any (fun p => p.1 == k) = false) :
+    kwPut (acc.map kwSome) k (some v) = (acc ++ [(k, v)]).map kwSome := by
+  unfold kwPut
+  rw [any_key_map_kwSome, h]
+  simp [kwSome]
+
+/-- `**u` in a call: when Python found no repeated keyword, the visitor's `kwargs[k] = v` loop only appends -/
+theorem kwFold_ok (kvs : List (String × Val)) : ∀ (acc acc' : List (String × Val)),
+    kvs.foldlM (fun a p => if a.any (fun q => q.1 == p.1) then (.error "TypeError" : Except Exc _) else .ok (a ++ [p])) acc
+      = .ok acc' →
+    kvs.foldl (fun a p => kwPut a p.1 (some p.2)) (acc.map kwSome) = acc'.map kwSome := by
+  induction kvs with
+  | nil =>
+    intro acc acc' h
+    simp only [List.foldlM_nil, pure, Except.pure, Except.ok.injEq] at h
+    subst h; rfl
+  | cons p rest ih =>
+    intro acc acc' h
+    simp only [List.foldlM_cons, Except.bind_eq_ok_iff] at h
+    obtain ⟨a1, h1, h2⟩ := h
+    by_cases hc : acc.any (fun q => q.1 == p.1) = true
+    · simp [hc] at h1
+    · simp only [hc, Bool.false_eq_true, if_false, Except.ok.injEq] at h1
+      subst h1
+      simp only [Bool.not_eq_true] at hc
+      simp only [List.foldl_cons, kwPut_fresh acc p.1 p.2 hc]
+      exact ih _ _ h2
+
 mutual
-theorem visit_py (ops : Ops) (env : Env) (keep : Nat → Bool) : ∀ (e : Expr) (v : Val) (P : Log),
-    e.wf = true → (∀ i ∈ outerIds e, keep i = true) → (∀ i ∈ innerIds e, keep i = false) →
+theorem visit_py (ops : Ops) (env : Env) (keep : Nat → Bool) (strict : Bool) : ∀ (e : Expr) (v : Val) (P : Log),
+    e.wf = true → (strict = true → e.orderFaithful = true) →
+    (∀ i ∈ outerIds e, keep i = true) → (∀ i ∈ innerIds e, keep i = false) →
     pyEval ops env e = .ok (v, P) →
     (visit ops env.builtins (Tbl.ofNames env.names) e).out = .ok (some v) ∧
-    (visit ops env.builtins (Tbl.ofNames env.names) e).log.filter (fun p => keep p.1) = P
-  | .const i c, v, P, _, ho, _, h => by
+    LogRel strict ((visit ops env.builtins (Tbl.ofNames env.names) e).log.filter (fun p => keep p.1)) P
+  | .const i c, v, P, _, _, ho, _, h => by
       simp only [pyEval, Except.ok.injEq, Prod.mk.injEq] at h
       obtain ⟨rfl, rfl⟩ := h
       have hk : keep i = true := ho i (by simp [outerIds])
       simp [visit, hk]
-  | .name i n, v, P, _, ho, _, h => by
+      logrel
+  | .name i n, v, P, _, _, ho, _, h => by
       have hk : keep i = true := ho i (by simp [outerIds])
       simp only [pyEval] at h
       simp only [visit, lookupT_ofNames]
@@ -42,6 +147,7 @@ theorem visit_py (ops : Ops) (env : Env) (keep : Nat → Bool) : ∀ (e : Expr) 
         simp only [hn, Except.ok.injEq, Prod.mk.injEq] at h
         obtain ⟨rfl, rfl⟩ := h
         simp [hk]
+        logrel
       | none =>
         simp only [hn] at h
         cases hb : lookup env.builtins n with
@@ -49,45 +155,53 @@ theorem visit_py (ops : Ops) (env : Env) (keep : Nat → Bool) : ∀ (e : Expr) 
           simp only [hb, Except.ok.injEq, Prod.mk.injEq] at h
           obtain ⟨rfl, rfl⟩ := h
           simp [hk]
+          logrel
         | none => simp [hb] at h
-  | .attr i e a, v, P, hw, ho, hi, h => by
+  | .attr i e a, v, P, hw, hs, ho, hi, h => by
       simp only [pyEval, Except.bind_eq_ok_iff, pure, Except.pure, Except.ok.injEq, Prod.mk.injEq] at h
       obtain ⟨⟨v1, l1⟩, h1, r, h2, rfl, rfl⟩ := h
       simp only [Expr.wf] at hw
+      simp only [Expr.orderFaithful] at hs
       simp only [outerIds, innerIds, List.forall_mem_cons] at ho hi
       obtain ⟨hk, ho1⟩ := ho
-      obtain ⟨ia, ib⟩ := visit_py ops env keep e v1 l1 hw ho1 hi h1
+      obtain ⟨ia, ib⟩ := visit_py ops env keep strict e v1 l1 hw hs ho1 hi h1
       simp only [visit, VRes.bind_of_ok ia]
-      simp [h2, ib, hk, List.filter_append]
-  | .subscr i e ix, v, P, hw, ho, hi, h => by
+      simp [h2, hk, List.filter_append]
+      logrel
+  | .subscr i e ix, v, P, hw, hs, ho, hi, h => by
       simp only [pyEval, Except.bind_eq_ok_iff, pure, Except.pure, Except.ok.injEq, Prod.mk.injEq] at h
       obtain ⟨⟨v1, l1⟩, h1, ⟨v2, l2⟩, h2, r, h3, rfl, rfl⟩ := h
       simp only [Expr.wf, Bool.and_eq_true] at hw
+      simp only [Expr.orderFaithful, Bool.and_eq_true] at hs
       simp only [outerIds, innerIds, List.forall_mem_cons, List.forall_mem_append] at ho hi
       obtain ⟨hk, ho1, ho2⟩ := ho
-      obtain ⟨ia, ib⟩ := visit_py ops env keep e v1 l1 hw.1 ho1 hi.1 h1
-      obtain ⟨ja, jb⟩ := visit_py ops env keep ix v2 l2 hw.2 ho2 hi.2 h2
+      obtain ⟨ia, ib⟩ := visit_py ops env keep strict e v1 l1 hw.1 (fun h => (hs h).1) ho1 hi.1 h1
+      obtain ⟨ja, jb⟩ := visit_py ops env keep strict ix v2 l2 hw.2 (fun h => (hs h).2) ho2 hi.2 h2
       simp only [visit, VRes.bind_of_ok ia, VRes.bind_of_ok ja]
       simp at h3
-      simp [h3, ib, jb, hk, List.filter_append]
-  | .call i f args, v, P, hw, ho, hi, h => by
+      simp [h3, hk, List.filter_append]
+      logrel
+  | .call i f args, v, P, hw, hs, ho, hi, h => by
       simp only [pyEval, Except.bind_eq_ok_iff, pure, Except.pure, Except.ok.injEq, Prod.mk.injEq] at h
       obtain ⟨⟨v1, l1⟩, h1, ⟨avs, l2⟩, h2, r, h3, rfl, rfl⟩ := h
       simp only [Expr.wf, Bool.and_eq_true] at hw
+      simp only [Expr.orderFaithful, Bool.and_eq_true] at hs
       simp only [outerIds, innerIds, List.forall_mem_cons, List.forall_mem_append] at ho hi
       obtain ⟨hk, ho1, ho2⟩ := ho
-      obtain ⟨ia, ib⟩ := visit_py ops env keep f v1 l1 hw.1 ho1 hi.1 h1
-      obtain ⟨ja, jb⟩ := visitList_py ops env keep args avs l2 hw.2 ho2 hi.2 h2
+      obtain ⟨ia, ib⟩ := visit_py ops env keep strict f v1 l1 hw.1 (fun h => (hs h).1) ho1 hi.1 h1
+      obtain ⟨ja, jb⟩ := visitList_py ops env keep strict args avs l2 hw.2 (fun h => (hs h).2) ho2 hi.2 h2
       simp only [visit, VRes.bind_of_ok ia, VRes.bind_of_ok ja]
       simp at h3
-      simp [h3, ib, jb, hk, List.filter_append, any_isNone_map_some, filterMap_id_map_some]
-  | .unary i op e, v, P, hw, ho, hi, h => by
+      simp [h3, hk, List.filter_append, any_isNone_map_some, filterMap_id_map_some]
+      logrel
+  | .unary i op e, v, P, hw, hs, ho, hi, h => by
       simp only [pyEval, Except.bind_eq_ok_iff, pure, Except.pure, Except.ok.injEq, Prod.mk.injEq] at h
       obtain ⟨⟨v1, l1⟩, h1, r, h2, rfl, rfl⟩ := h
       simp only [Expr.wf] at hw
+      simp only [Expr.orderFaithful] at hs
       simp only [outerIds, innerIds, List.forall_mem_cons] at ho hi
       obtain ⟨hk, ho1⟩ := ho
-      obtain ⟨ia, ib⟩ := visit_py ops env keep e v1 l1 hw ho1 hi h1
+      obtain ⟨ia, ib⟩ := visit_py ops env keep strict e v1 l1 hw hs ho1 hi h1
       simp only [visit, VRes.bind_of_ok ia]
       cases op with
       | not =>
@@ -95,69 +209,81 @@ theorem visit_py (ops : Ops) (env : Env) (keep : Nat → Bool) : ∀ (e : Expr) 
         obtain ⟨b, hb, rfl⟩ := h2
         have hn : (do let b ← ops.truth v1; pure (Val.bool !b) : Except Exc Val) = .ok (Val.bool !b) := by
           rw [hb]; rfl
-        simp [hn, ib, hk, List.filter_append]
-      | neg => simp at h2; simp [h2, ib, hk, List.filter_append]
-      | pos => simp at h2; simp [h2, ib, hk, List.filter_append]
-      | inv => simp at h2; simp [h2, ib, hk, List.filter_append]
-  | .bin i op l r, v, P, hw, ho, hi, h => by
+        simp [hn, hk, List.filter_append]
+        logrel
+      | neg => simp at h2; simp [h2, hk, List.filter_append]; logrel
+      | pos => simp at h2; simp [h2, hk, List.filter_append]; logrel
+      | inv => simp at h2; simp [h2, hk, List.filter_append]; logrel
+  | .bin i op l r, v, P, hw, hs, ho, hi, h => by
       simp only [pyEval, Except.bind_eq_ok_iff, pure, Except.pure, Except.ok.injEq, Prod.mk.injEq] at h
       obtain ⟨⟨v1, l1⟩, h1, ⟨v2, l2⟩, h2, x, h3, rfl, rfl⟩ := h
       simp only [Expr.wf, Bool.and_eq_true] at hw
+      simp only [Expr.orderFaithful, Bool.and_eq_true] at hs
       simp only [outerIds, innerIds, List.forall_mem_cons, List.forall_mem_append] at ho hi
       obtain ⟨hk, ho1, ho2⟩ := ho
-      obtain ⟨ia, ib⟩ := visit_py ops env keep l v1 l1 hw.1 ho1 hi.1 h1
-      obtain ⟨ja, jb⟩ := visit_py ops env keep r v2 l2 hw.2 ho2 hi.2 h2
+      obtain ⟨ia, ib⟩ := visit_py ops env keep strict l v1 l1 hw.1 (fun h => (hs h).1) ho1 hi.1 h1
+      obtain ⟨ja, jb⟩ := visit_py ops env keep strict r v2 l2 hw.2 (fun h => (hs h).2) ho2 hi.2 h2
       simp only [visit, VRes.bind_of_ok ia, VRes.bind_of_ok ja]
       simp at h3
-      simp [h3, ib, jb, hk, List.filter_append]
-  | .boolop i isAnd es, v, P, hw, ho, hi, h => by
+      simp [h3, hk, List.filter_append]
+      logrel
+  | .boolop i isAnd es, v, P, hw, hs, ho, hi, h => by
       simp only [pyEval, Except.bind_eq_ok_iff, pure, Except.pure, Except.ok.injEq, Prod.mk.injEq] at h
       obtain ⟨⟨r, l⟩, h1, rfl, rfl⟩ := h
       simp only [Expr.wf, Bool.and_eq_true, Bool.not_eq_true'] at hw
+      simp only [Expr.orderFaithful] at hs
       simp only [outerIds, innerIds, List.forall_mem_cons] at ho hi
       obtain ⟨hk, ho1⟩ := ho
-      obtain ⟨ia, ib⟩ := visitBool_py ops env keep isAnd none es r l hw.1 hw.2 ho1 hi h1
+      obtain ⟨ia, ib⟩ := visitBool_py ops env keep strict isAnd none es r l hw.1 hw.2 hs ho1 hi h1
       simp only [visit, VRes.bind_of_ok ia]
-      simp [ib, hk, List.filter_append]
-  | .compare i left rest, v, P, hw, ho, hi, h => by
+      simp [hk, List.filter_append]
+      logrel
+  | .compare i left rest, v, P, hw, hs, ho, hi, h => by
       simp only [pyEval, Except.bind_eq_ok_iff, pure, Except.pure, Except.ok.injEq, Prod.mk.injEq] at h
       obtain ⟨⟨lv, l0⟩, h1, ⟨r, l1⟩, h2, rfl, rfl⟩ := h
       simp only [Expr.wf, Bool.and_eq_true, Bool.not_eq_true'] at hw
+      simp only [Expr.orderFaithful, Bool.and_eq_true] at hs
       simp only [outerIds, innerIds, List.forall_mem_cons, List.forall_mem_append] at ho hi
       obtain ⟨hk, ho1, ho2⟩ := ho
-      obtain ⟨ia, ib⟩ := visit_py ops env keep left lv l0 hw.1 ho1 hi.1 h1
-      obtain ⟨ja, jb⟩ := visitCmp_py ops env keep lv none rest r l1 hw.2.1 hw.2.2 ho2 hi.2 h2
+      obtain ⟨ia, ib⟩ := visit_py ops env keep strict left lv l0 hw.1 (fun h => (hs h).1) ho1 hi.1 h1
+      obtain ⟨ja, jb⟩ := visitCmp_py ops env keep strict lv none rest r l1 hw.2.1 hw.2.2 (fun h => (hs h).2) ho2 hi.2 h2
       simp only [visit, VRes.bind_of_ok ia, Option.isNone_some, VRes.bind_of_ok ja]
-      simp [ib, jb, hk, List.filter_append]
-  | .ifexp i c t e, v, P, hw, ho, hi, h => by
+      simp [hk, List.filter_append]
+      logrel
+  | .ifexp i c t e, v, P, hw, hs, ho, hi, h => by
       simp only [pyEval, Except.bind_eq_ok_iff, pure, Except.pure, Except.ok.injEq, Prod.mk.injEq] at h
       obtain ⟨⟨cv, l0⟩, h1, b, hb, ⟨r, l1⟩, h2, rfl, rfl⟩ := h
       simp only [Expr.wf, Bool.and_eq_true] at hw
+      simp only [Expr.orderFaithful, Bool.and_eq_true] at hs
       simp only [outerIds, innerIds, List.forall_mem_cons, List.forall_mem_append] at ho hi
       obtain ⟨hk, ⟨ho1, ho2⟩, ho3⟩ := ho
       obtain ⟨⟨hi1, hi2⟩, hi3⟩ := hi
-      obtain ⟨ia, ib⟩ := visit_py ops env keep c cv l0 hw.1 ho1 hi1 h1
+      obtain ⟨ia, ib⟩ := visit_py ops env keep strict c cv l0 hw.1 (fun h => (hs h).1) ho1 hi1 h1
       simp only [visit, VRes.bind_of_ok ia]
       simp at hb
       cases b with
       | true =>
         simp at h2
-        obtain ⟨ja, jb⟩ := visit_py ops env keep t r l1 hw.2.1 ho2 hi2 h2
-        simp [hb, VRes.bind_of_ok ja, ib, jb, hk, List.filter_append]
+        obtain ⟨ja, jb⟩ := visit_py ops env keep strict t r l1 hw.2.1 (fun h => (hs h).2.1) ho2 hi2 h2
+        simp [hb, VRes.bind_of_ok ja, hk, List.filter_append]
+        logrel
       | false =>
         simp at h2
-        obtain ⟨ja, jb⟩ := visit_py ops env keep e r l1 hw.2.2 ho3 hi3 h2
-        simp [hb, VRes.bind_of_ok ja, ib, jb, hk, List.filter_append]
-  | .display i es, v, P, hw, ho, hi, h => by
+        obtain ⟨ja, jb⟩ := visit_py ops env keep strict e r l1 hw.2.2 (fun h => (hs h).2.2) ho3 hi3 h2
+        simp [hb, VRes.bind_of_ok ja, hk, List.filter_append]
+        logrel
+  | .display i es, v, P, hw, hs, ho, hi, h => by
       simp only [pyEval, Except.bind_eq_ok_iff, pure, Except.pure, Except.ok.injEq, Prod.mk.injEq] at h
       obtain ⟨⟨vs, l⟩, h1, rfl, rfl⟩ := h
       simp only [Expr.wf] at hw
+      simp only [Expr.orderFaithful] at hs
       simp only [outerIds, innerIds, List.forall_mem_cons] at ho hi
       obtain ⟨hk, ho1⟩ := ho
-      obtain ⟨ia, ib⟩ := visitList_py ops env keep es vs l hw ho1 hi h1
+      obtain ⟨ia, ib⟩ := visitList_py ops env keep strict es vs l hw hs ho1 hi h1
       simp only [visit, VRes.bind_of_ok ia]
-      simp [ib, hk, List.filter_append, any_isNone_map_some, filterMap_id_map_some]
-  | .comp i targets inner, v, P, hw, ho, hi, h => by
+      simp [hk, List.filter_append, any_isNone_map_some, filterMap_id_map_some]
+      logrel
+  | .comp i targets inner, v, P, hw, _, ho, hi, h => by
       simp only [pyEval, Except.bind_eq_ok_iff, pure, Except.pure, Except.ok.injEq, Prod.mk.injEq] at h
       obtain ⟨r, h1, rfl, rfl⟩ := h
       have hk : keep i = true := ho i (by simp [outerIds])
@@ -170,45 +296,346 @@ theorem visit_py (ops : Ops) (env : Env) (keep : Nat → Bool) : ∀ (e : Expr) 
         simp [this]
       simp only [visit, VRes.bind_of_ok (harvest_out _ _ _ _)]
       simp [hasPlaceholder_ofNames, values_ofNames, h1, hh, hk, List.filter_append]
-theorem visitList_py (ops : Ops) (env : Env) (keep : Nat → Bool) : ∀ (es : List Expr) (vs : List Val) (P : Log),
-    wfList es = true → (∀ i ∈ outerIdsList es, keep i = true) → (∀ i ∈ innerIdsList es, keep i = false) →
+      logrel
+  -- second version ------------------------------------------------------------------------------------
+  | .starred i e, v, P, hw, _, _, _, _ => by simp [Expr.wf] at hw
+  | .coll i kind es, v, P, hw, hs, ho, hi, h => by
+      simp only [pyEval, Except.bind_eq_ok_iff, pure, Except.pure, Except.ok.injEq, Prod.mk.injEq] at h
+      obtain ⟨⟨vs, l⟩, h1, r, h2, rfl, rfl⟩ := h
+      simp only [Expr.wf] at hw
+      simp only [Expr.orderFaithful] at hs
+      simp only [outerIds, innerIds, List.forall_mem_cons] at ho hi
+      obtain ⟨hk, ho1⟩ := ho
+      obtain ⟨ia, ib⟩ := visitElts_py ops env keep strict es vs l hw hs ho1 hi h1
+      simp only [visit, VRes.bind_of_ok ia]
+      cases kind with
+      | list =>
+        simp at h2
+        simp [h2, hk, List.filter_append, any_isNone_map_some, filterMap_id_map_some]
+        logrel
+      | tuple =>
+        simp at h2
+        simp [h2, hk, List.filter_append, any_isNone_map_some, filterMap_id_map_some]
+        logrel
+      | set =>
+        simp at h2
+        simp [h2, hk, List.filter_append, any_isNone_map_some, filterMap_id_map_some]
+        logrel
+  | .dict i items, v, P, hw, hs, ho, hi, h => by
+      simp only [pyEval, Except.bind_eq_ok_iff, pure, Except.pure, Except.ok.injEq, Prod.mk.injEq] at h
+      obtain ⟨⟨d, l⟩, h1, rfl, rfl⟩ := h
+      simp only [Expr.wf] at hw
+      simp only [Expr.orderFaithful] at hs
+      simp only [outerIds, innerIds, List.forall_mem_cons] at ho hi
+      obtain ⟨hk, ho1⟩ := ho
+      obtain ⟨ia, ib⟩ := visitItems_py ops env keep strict items ops.dictEmpty d l hw hs ho1 hi h1
+      simp only [visit, VRes.bind_of_ok ia]
+      simp [hk, List.filter_append]
+      logrel
+  | .slice i lo hi' step, v, P, hw, hs, ho, hi, h => by
+      simp only [pyEval, Except.bind_eq_ok_iff, pure, Except.pure, Except.ok.injEq, Prod.mk.injEq] at h
+      obtain ⟨⟨a, l1⟩, h1, ⟨b, l2⟩, h2, ⟨c, l3⟩, h3, rfl, rfl⟩ := h
+      simp only [Expr.wf, Bool.and_eq_true] at hw
+      simp only [Expr.orderFaithful, Bool.and_eq_true] at hs
+      simp only [outerIds, innerIds, List.forall_mem_cons, List.forall_mem_append] at ho hi
+      obtain ⟨hk, ⟨ho1, ho2⟩, ho3⟩ := ho
+      obtain ⟨⟨hi1, hi2⟩, hi3⟩ := hi
+      obtain ⟨ia, ib⟩ := visitOpt_py ops env keep strict lo a l1 hw.1 (fun h => (hs h).1) ho1 hi1 h1
+      obtain ⟨ja, jb⟩ := visitOpt_py ops env keep strict hi' b l2 hw.2.1 (fun h => (hs h).2.1) ho2 hi2 h2
+      obtain ⟨ka, kb⟩ := visitOpt_py ops env keep strict step c l3 hw.2.2 (fun h => (hs h).2.2) ho3 hi3 h3
+      simp only [visit, VRes.bind_of_ok ia, VRes.bind_of_ok ja, VRes.bind_of_ok ka]
+      simp [hk, List.filter_append]
+      logrel
+  | .callkw i f args kws, v, P, hw, hs, ho, hi, h => by
+      simp only [pyEval, Except.bind_eq_ok_iff, pure, Except.pure, Except.ok.injEq, Prod.mk.injEq] at h
+      obtain ⟨⟨fv, l0⟩, h1, ⟨avs, l1⟩, h2, ⟨kvs, l2⟩, h3, r, h4, rfl, rfl⟩ := h
+      simp only [Expr.wf, Bool.and_eq_true] at hw
+      simp only [Expr.orderFaithful, Bool.and_eq_true] at hs
+      simp only [outerIds, innerIds, List.forall_mem_cons, List.forall_mem_append] at ho hi
+      obtain ⟨hk, ⟨ho1, ho2⟩, ho3⟩ := ho
+      obtain ⟨⟨hi1, hi2⟩, hi3⟩ := hi
+      obtain ⟨ia, ib⟩ := visit_py ops env keep strict f fv l0 hw.1 (fun h => (hs h).1) ho1 hi1 h1
+      obtain ⟨ja, jb⟩ := visitArgs_py ops env keep strict args avs l1 hw.2.1 (fun h => (hs h).2.1) ho2 hi2 h2
+      obtain ⟨ka, kb⟩ := visitKws_py ops env keep strict kws [] kvs l2 hw.2.2 (fun h => (hs h).2.2) ho3 hi3 h3
+      simp only [List.map_nil] at ka kb
+      simp only [visit, VRes.bind_of_ok ia, VRes.bind_of_ok ja, VRes.bind_of_ok ka]
+      simp at h4
+      simp only [any_isNone_map_some, filterMap_id_map_some, any_isNone_map_kwSome, filterMap_map_kwSome]
+      simp [h4, hk, List.filter_append]
+      logrel
+  | .fvalue i e conv none, v, P, hw, hs, ho, hi, h => by
+      simp only [pyEval, Except.bind_eq_ok_iff, pure, Except.pure, Except.ok.injEq, Prod.mk.injEq] at h
+      obtain ⟨⟨v1, l1⟩, h1, ⟨sp, l2⟩, h2, r, h3, rfl, rfl⟩ := h
+      obtain ⟨rfl, rfl⟩ := h2
+      simp only [Expr.wf, wfOpt, Bool.and_true] at hw
+      simp only [Expr.orderFaithful, Option.isNone_none, Bool.and_true] at hs
+      simp only [outerIds, innerIds, outerIdsOpt, innerIdsOpt, List.append_nil, List.forall_mem_cons] at ho hi
+      obtain ⟨ia, ib⟩ := visit_py ops env keep strict e v1 l1 hw hs ho.2 hi h1
+      simp only [visit, VRes.bind_of_ok ia]
+      simp at h3
+      simp [h3]
+      logrel
+  | .fvalue i e conv (some sp), v, P, hw, hs, ho, hi, h => by
+      simp only [pyEval, Except.bind_eq_ok_iff, pure, Except.pure, Except.ok.injEq, Prod.mk.injEq] at h
+      obtain ⟨⟨v1, l1⟩, h1, ⟨spv, l2⟩, ⟨⟨v2, l2'⟩, h2, h2'⟩, r, h3, rfl, rfl⟩ := h
+      obtain ⟨rfl, rfl⟩ := h2'
+      have hst : strict = false := by
+        cases strict with
+        | false => rfl
+        | true => simp [Expr.orderFaithful] at hs
+      subst hst
+      simp only [Expr.wf, wfOpt, Bool.and_eq_true] at hw
+      simp only [outerIds, innerIds, outerIdsOpt, innerIdsOpt, List.forall_mem_cons, List.forall_mem_append] at ho hi
+      obtain ⟨ia, ib⟩ := visit_py ops env keep false e v1 l1 hw.1 (fun h => by cases h) ho.2.1 hi.1 h1
+      obtain ⟨ja, jb⟩ := visit_py ops env keep false sp v2 l2' hw.2 (fun h => by cases h) ho.2.2 hi.2 h2
+      simp only [visit, VRes.bind_of_ok ja, VRes.bind_of_ok ia]
+      simp at h3
+      simp [h3, VRes.bind_of_ok ja, VRes.bind_of_ok ia, List.filter_append]
+      exact LogRel.swap2 ib jb
+  | .fstring i parts, v, P, hw, hs, ho, hi, h => by
+      simp only [pyEval, Except.bind_eq_ok_iff, pure, Except.pure, Except.ok.injEq, Prod.mk.injEq] at h
+      obtain ⟨⟨vs, l⟩, h1, r, h2, rfl, rfl⟩ := h
+      simp only [Expr.wf] at hw
+      simp only [Expr.orderFaithful] at hs
+      simp only [outerIds, innerIds, List.forall_mem_cons] at ho hi
+      obtain ⟨hk, ho1⟩ := ho
+      obtain ⟨ia, ib⟩ := visitList_py ops env keep strict parts vs l hw hs ho1 hi h1
+      simp only [visit, VRes.bind_of_ok ia]
+      simp at h2
+      simp [h2, hk, List.filter_append, any_isNone_map_some, filterMap_id_map_some]
+      logrel
+theorem visitElts_py (ops : Ops) (env : Env) (keep : Nat → Bool) (strict : Bool) :
+    ∀ (es : List Expr) (vs : List Val) (P : Log),
+    wfElts es = true → (strict = true → orderFaithfulList es = true) →
+    (∀ i ∈ outerIdsList es, keep i = true) → (∀ i ∈ innerIdsList es, keep i = false) →
+    pyEvalElts ops env es = .ok (vs, P) →
+    (visitElts ops env.builtins (Tbl.ofNames env.names) es).out = .ok (vs.map some) ∧
+    LogRel strict ((visitElts ops env.builtins (Tbl.ofNames env.names) es).log.filter (fun p => keep p.1)) P
+  | [], vs, P, _, _, _, _, h => by
+      simp only [pyEvalElts, Except.ok.injEq, Prod.mk.injEq] at h
+      obtain ⟨rfl, rfl⟩ := h
+      simp [visitElts]
+      logrel
+  | e :: rest, vs, P, hw, hs, ho, hi, h => by
+      cases e with
+      | starred j e' =>
+        simp only [pyEvalElts, Except.bind_eq_ok_iff, pure, Except.pure, Except.ok.injEq, Prod.mk.injEq] at h
+        obtain ⟨⟨s, l1⟩, h1, xs, h2, ⟨vs2, l2⟩, h3, rfl, rfl⟩ := h
+        simp only [wfElts, Bool.and_eq_true] at hw
+        simp only [orderFaithfulList, Expr.orderFaithful, Bool.and_eq_true] at hs
+        simp only [outerIdsList, innerIdsList, outerIds, innerIds, List.forall_mem_append, List.forall_mem_cons] at ho hi
+        obtain ⟨ia, ib⟩ := visit_py ops env keep strict e' s l1 hw.1 (fun h => (hs h).1) ho.1.2 hi.1 h1
+        obtain ⟨ja, jb⟩ := visitElts_py ops env keep strict rest vs2 l2 hw.2 (fun h => (hs h).2) ho.2 hi.2 h3
+        simp only [visitElts, VRes.bind_of_ok ia]
+        simp at h2
+        simp [h2, VRes.bind_of_ok ja, List.filter_append]
+        logrel
+      | _ =>
+        simp only [pyEvalElts, Except.bind_eq_ok_iff, pure, Except.pure, Except.ok.injEq, Prod.mk.injEq] at h
+        obtain ⟨⟨v1, l1⟩, h1, ⟨vs2, l2⟩, h2, rfl, rfl⟩ := h
+        simp only [wfElts, Bool.and_eq_true] at hw
+        simp only [orderFaithfulList, Bool.and_eq_true] at hs
+        simp only [outerIdsList, innerIdsList, List.forall_mem_append] at ho hi
+        obtain ⟨ia, ib⟩ := visit_py ops env keep strict _ v1 l1 hw.1 (fun h => (hs h).1) ho.1 hi.1 h1
+        obtain ⟨ja, jb⟩ := visitElts_py ops env keep strict rest vs2 l2 hw.2 (fun h => (hs h).2) ho.2 hi.2 h2
+        simp only [visitElts, VRes.bind_of_ok ia, VRes.bind_of_ok ja]
+        simp [List.filter_append]
+        logrel
+theorem visitArgs_py (ops : Ops) (env : Env) (keep : Nat → Bool) (strict : Bool) :
+    ∀ (es : List Expr) (vs : List Val) (P : Log),
+    wfElts es = true → (strict = true → orderFaithfulList es = true) →
+    (∀ i ∈ outerIdsList es, keep i = true) → (∀ i ∈ innerIdsList es, keep i = false) →
+    pyEvalElts ops env es = .ok (vs, P) →
+    (visitArgs ops env.builtins (Tbl.ofNames env.names) es).out = .ok (some (vs.map some)) ∧
+    LogRel strict ((visitArgs ops env.builtins (Tbl.ofNames env.names) es).log.filter (fun p => keep p.1)) P
+  | [], vs, P, _, _, _, _, h => by
+      simp only [pyEvalElts, Except.ok.injEq, Prod.mk.injEq] at h
+      obtain ⟨rfl, rfl⟩ := h
+      simp [visitArgs]
+      logrel
+  | e :: rest, vs, P, hw, hs, ho, hi, h => by
+      cases e with
+      | starred j e' =>
+        simp only [pyEvalElts, Except.bind_eq_ok_iff, pure, Except.pure, Except.ok.injEq, Prod.mk.injEq] at h
+        obtain ⟨⟨s, l1⟩, h1, xs, h2, ⟨vs2, l2⟩, h3, rfl, rfl⟩ := h
+        simp only [wfElts, Bool.and_eq_true] at hw
+        simp only [orderFaithfulList, Expr.orderFaithful, Bool.and_eq_true] at hs
+        simp only [outerIdsList, innerIdsList, outerIds, innerIds, List.forall_mem_append, List.forall_mem_cons] at ho hi
+        obtain ⟨ia, ib⟩ := visit_py ops env keep strict e' s l1 hw.1 (fun h => (hs h).1) ho.1.2 hi.1 h1
+        obtain ⟨ja, jb⟩ := visitArgs_py ops env keep strict rest vs2 l2 hw.2 (fun h => (hs h).2) ho.2 hi.2 h3
+        simp only [visitArgs, VRes.bind_of_ok ia]
+        simp at h2
+        simp [h2, VRes.bind_of_ok ja, List.filter_append]
+        logrel
+      | _ =>
+        simp only [pyEvalElts, Except.bind_eq_ok_iff, pure, Except.pure, Except.ok.injEq, Prod.mk.injEq] at h
+        obtain ⟨⟨v1, l1⟩, h1, ⟨vs2, l2⟩, h2, rfl, rfl⟩ := h
+        simp only [wfElts, Bool.and_eq_true] at hw
+        simp only [orderFaithfulList, Bool.and_eq_true] at hs
+        simp only [outerIdsList, innerIdsList, List.forall_mem_append] at ho hi
+        obtain ⟨ia, ib⟩ := visit_py ops env keep strict _ v1 l1 hw.1 (fun h => (hs h).1) ho.1 hi.1 h1
+        obtain ⟨ja, jb⟩ := visitArgs_py ops env keep strict rest vs2 l2 hw.2 (fun h => (hs h).2) ho.2 hi.2 h2
+        simp only [visitArgs, VRes.bind_of_ok ia, VRes.bind_of_ok ja]
+        simp [List.filter_append]
+        logrel
+theorem visitKws_py (ops : Ops) (env : Env) (keep : Nat → Bool) (strict : Bool) :
+    ∀ (kws : List (Option String × Expr)) (acc r : List (String × Val)) (P : Log),
+    wfKws kws = true → (strict = true → orderFaithfulKws kws = true) →
+    (∀ i ∈ outerIdsKws kws, keep i = true) → (∀ i ∈ innerIdsKws kws, keep i = false) →
+    pyEvalKws ops env acc kws = .ok (r, P) →
+    (visitKws ops env.builtins (Tbl.ofNames env.names) (acc.map kwSome) kws).out = .ok (r.map kwSome) ∧
+    LogRel strict ((visitKws ops env.builtins (Tbl.ofNames env.names) (acc.map kwSome) kws).log.filter
+      (fun p => keep p.1)) P
+  | [], acc, r, P, _, _, _, _, h => by
+      simp only [pyEvalKws, Except.ok.injEq, Prod.mk.injEq] at h
+      obtain ⟨rfl, rfl⟩ := h
+      simp [visitKws]
+      logrel
+  | (some k, e) :: rest, acc, r, P, hw, hs, ho, hi, h => by
+      simp only [pyEvalKws, Except.bind_eq_ok_iff, pure, Except.pure] at h
+      obtain ⟨⟨v1, l1⟩, h1, h⟩ := h
+      simp only [wfKws, Bool.and_eq_true] at hw
+      simp only [orderFaithfulKws, Bool.and_eq_true] at hs
+      simp only [outerIdsKws, innerIdsKws, List.forall_mem_append] at ho hi
+      obtain ⟨ia, ib⟩ := visit_py ops env keep strict e v1 l1 hw.1 (fun h => (hs h).1) ho.1 hi.1 h1
+      by_cases hc : acc.any (fun p => p.1 == k) = true
+      · simp [hc] at h
+      · simp only [hc, Bool.false_eq_true, if_false, Except.bind_eq_ok_iff, Except.ok.injEq, Prod.mk.injEq] at h
+        obtain ⟨⟨r2, l2⟩, h2, rfl, rfl⟩ := h
+        simp only [Bool.not_eq_true] at hc
+        obtain ⟨ja, jb⟩ := visitKws_py ops env keep strict rest (acc ++ [(k, v1)]) r2 l2 hw.2 (fun h => (hs h).2)
+          ho.2 hi.2 h2
+        rw [← kwPut_fresh acc k v1 hc] at ja jb
+        simp only [visitKws, VRes.bind_of_ok ia]
+        refine ⟨ja, ?_⟩
+        simp only [List.filter_append]
+        logrel
+  | (none, e) :: rest, acc, r, P, hw, hs, ho, hi, h => by
+      simp only [pyEvalKws, Except.bind_eq_ok_iff, pure, Except.pure, Except.ok.injEq, Prod.mk.injEq] at h
+      obtain ⟨⟨u, l1⟩, h1, kvs, h2, acc', h3, ⟨r2, l2⟩, h4, rfl, rfl⟩ := h
+      simp only [wfKws, Bool.and_eq_true] at hw
+      simp only [orderFaithfulKws, Bool.and_eq_true] at hs
+      simp only [outerIdsKws, innerIdsKws, List.forall_mem_append] at ho hi
+      obtain ⟨ia, ib⟩ := visit_py ops env keep strict e u l1 hw.1 (fun h => (hs h).1) ho.1 hi.1 h1
+      obtain ⟨ja, jb⟩ := visitKws_py ops env keep strict rest acc' r2 l2 hw.2 (fun h => (hs h).2) ho.2 hi.2 h4
+      rw [← kwFold_ok kvs acc acc' h3] at ja jb
+      simp only [visitKws, VRes.bind_of_ok ia]
+      simp at h2
+      simp only [h2, VRes.lift_ok_bind]
+      refine ⟨ja, ?_⟩
+      simp only [List.filter_append]
+      logrel
+theorem visitItems_py (ops : Ops) (env : Env) (keep : Nat → Bool) (strict : Bool) :
+    ∀ (items : List (Option Expr × Expr)) (d r : Val) (P : Log),
+    wfItems items = true → (strict = true → orderFaithfulItems items = true) →
+    (∀ i ∈ outerIdsItems items, keep i = true) → (∀ i ∈ innerIdsItems items, keep i = false) →
+    pyEvalItems ops env d items = .ok (r, P) →
+    (visitItems ops env.builtins (Tbl.ofNames env.names) d false items).out = .ok (r, false) ∧
+    LogRel strict ((visitItems ops env.builtins (Tbl.ofNames env.names) d false items).log.filter
+      (fun p => keep p.1)) P
+  | [], d, r, P, _, _, _, _, h => by
+      simp only [pyEvalItems, Except.ok.injEq, Prod.mk.injEq] at h
+      obtain ⟨rfl, rfl⟩ := h
+      simp [visitItems]
+      logrel
+  | (none, e) :: rest, d, r, P, hw, hs, ho, hi, h => by
+      simp only [pyEvalItems, Except.bind_eq_ok_iff, pure, Except.pure, Except.ok.injEq, Prod.mk.injEq] at h
+      obtain ⟨⟨u, l1⟩, h1, d', h2, ⟨r2, l2⟩, h3, rfl, rfl⟩ := h
+      simp only [wfItems, wfOpt, Bool.true_and, Bool.and_eq_true] at hw
+      simp only [orderFaithfulItems, Bool.and_eq_true] at hs
+      simp only [outerIdsItems, innerIdsItems, outerIdsOpt, innerIdsOpt, List.nil_append, List.forall_mem_append] at ho hi
+      obtain ⟨ia, ib⟩ := visit_py ops env keep strict e u l1 hw.1 (fun h => (hs h).1) ho.1 hi.1 h1
+      obtain ⟨ja, jb⟩ := visitItems_py ops env keep strict rest d' r2 l2 hw.2 (fun h => (hs h).2) ho.2 hi.2 h3
+      simp only [visitItems, VRes.bind_of_ok ia]
+      simp at h2
+      simp only [h2, VRes.lift_ok_bind]
+      refine ⟨ja, ?_⟩
+      simp only [List.filter_append]
+      logrel
+  | (some k, e) :: rest, d, r, P, hw, hs, ho, hi, h => by
+      simp only [pyEvalItems, Except.bind_eq_ok_iff, pure, Except.pure, Except.ok.injEq, Prod.mk.injEq] at h
+      obtain ⟨⟨kv, l1⟩, h1, ⟨vv, l2⟩, h2, d', h3, ⟨r2, l3⟩, h4, rfl, rfl⟩ := h
+      have hst : strict = false := by
+        cases strict with
+        | false => rfl
+        | true => simp [orderFaithfulItems] at hs
+      subst hst
+      simp only [wfItems, wfOpt, Bool.and_eq_true] at hw
+      simp only [outerIdsItems, innerIdsItems, outerIdsOpt, innerIdsOpt, List.forall_mem_append] at ho hi
+      obtain ⟨ia, ib⟩ := visit_py ops env keep false k kv l1 hw.1 (fun h => by cases h) ho.1.1 hi.1.1 h1
+      obtain ⟨ja, jb⟩ := visit_py ops env keep false e vv l2 hw.2.1 (fun h => by cases h) ho.1.2 hi.1.2 h2
+      obtain ⟨ka, kb⟩ := visitItems_py ops env keep false rest d' r2 l3 hw.2.2 (fun h => by cases h) ho.2 hi.2 h4
+      simp only [visitItems, VRes.bind_of_ok ja, VRes.bind_of_ok ia]
+      simp at h3
+      simp only [h3, VRes.lift_ok_bind]
+      refine ⟨ka, ?_⟩
+      simp only [List.filter_append, List.append_assoc]
+      exact LogRel.swap3 ib jb kb
+theorem visitOpt_py (ops : Ops) (env : Env) (keep : Nat → Bool) (strict : Bool) :
+    ∀ (o : Option Expr) (v : Val) (P : Log),
+    wfOpt o = true → (strict = true → orderFaithfulOpt o = true) →
+    (∀ i ∈ outerIdsOpt o, keep i = true) → (∀ i ∈ innerIdsOpt o, keep i = false) →
+    pyEvalOpt ops env o = .ok (v, P) →
+    (visitOpt ops env.builtins (Tbl.ofNames env.names) o).out = .ok (some v) ∧
+    LogRel strict ((visitOpt ops env.builtins (Tbl.ofNames env.names) o).log.filter (fun p => keep p.1)) P
+  | none, v, P, _, _, _, _, h => by
+      simp only [pyEvalOpt, Except.ok.injEq, Prod.mk.injEq] at h
+      obtain ⟨rfl, rfl⟩ := h
+      simp [visitOpt]
+      logrel
+  | some e, v, P, hw, hs, ho, hi, h => by
+      simp only [pyEvalOpt] at h
+      simp only [wfOpt] at hw
+      simp only [orderFaithfulOpt] at hs
+      simp only [outerIdsOpt, innerIdsOpt] at ho hi
+      simpa only [visitOpt] using visit_py ops env keep strict e v P hw hs ho hi h
+theorem visitList_py (ops : Ops) (env : Env) (keep : Nat → Bool) (strict : Bool) :
+    ∀ (es : List Expr) (vs : List Val) (P : Log),
+    wfList es = true → (strict = true → orderFaithfulList es = true) →
+    (∀ i ∈ outerIdsList es, keep i = true) → (∀ i ∈ innerIdsList es, keep i = false) →
     pyEvalList ops env es = .ok (vs, P) →
     (visitList ops env.builtins (Tbl.ofNames env.names) es).out = .ok (vs.map some) ∧
-    (visitList ops env.builtins (Tbl.ofNames env.names) es).log.filter (fun p => keep p.1) = P
-  | [], vs, P, _, _, _, h => by
+    LogRel strict ((visitList ops env.builtins (Tbl.ofNames env.names) es).log.filter (fun p => keep p.1)) P
+  | [], vs, P, _, _, _, _, h => by
       simp only [pyEvalList, Except.ok.injEq, Prod.mk.injEq] at h
       obtain ⟨rfl, rfl⟩ := h
       simp [visitList]
-  | e :: rest, vs, P, hw, ho, hi, h => by
+      logrel
+  | e :: rest, vs, P, hw, hs, ho, hi, h => by
       simp only [pyEvalList, Except.bind_eq_ok_iff, pure, Except.pure, Except.ok.injEq, Prod.mk.injEq] at h
       obtain ⟨⟨v1, l1⟩, h1, ⟨vs2, l2⟩, h2, rfl, rfl⟩ := h
       simp only [wfList, Bool.and_eq_true] at hw
+      simp only [orderFaithfulList, Bool.and_eq_true] at hs
       simp only [outerIdsList, innerIdsList, List.forall_mem_append] at ho hi
-      obtain ⟨ia, ib⟩ := visit_py ops env keep e v1 l1 hw.1 ho.1 hi.1 h1
-      obtain ⟨ja, jb⟩ := visitList_py ops env keep rest vs2 l2 hw.2 ho.2 hi.2 h2
+      obtain ⟨ia, ib⟩ := visit_py ops env keep strict e v1 l1 hw.1 (fun h => (hs h).1) ho.1 hi.1 h1
+      obtain ⟨ja, jb⟩ := visitList_py ops env keep strict rest vs2 l2 hw.2 (fun h => (hs h).2) ho.2 hi.2 h2
       simp only [visitList, VRes.bind_of_ok ia, VRes.bind_of_ok ja]
-      simp [ib, jb, List.filter_append]
-theorem visitBool_py (ops : Ops) (env : Env) (keep : Nat → Bool) : ∀ (isAnd : Bool) (last : Option Val)
+      simp [List.filter_append]
+      logrel
+theorem visitBool_py (ops : Ops) (env : Env) (keep : Nat → Bool) (strict : Bool) : ∀ (isAnd : Bool) (last : Option Val)
     (es : List Expr) (v : Val) (P : Log),
-    es.isEmpty = false → wfList es = true →
+    es.isEmpty = false → wfList es = true → (strict = true → orderFaithfulList es = true) →
     (∀ i ∈ outerIdsList es, keep i = true) → (∀ i ∈ innerIdsList es, keep i = false) →
     pyEvalBool ops env isAnd es = .ok (v, P) →
     (visitBool ops env.builtins (Tbl.ofNames env.names) isAnd false last es).out = .ok (some v) ∧
-    (visitBool ops env.builtins (Tbl.ofNames env.names) isAnd false last es).log.filter (fun p => keep p.1) = P
-  | isAnd, last, [], v, P, hne, _, _, _, _ => by simp at hne
-  | isAnd, last, [e], v, P, _, hw, ho, hi, h => by
+    LogRel strict ((visitBool ops env.builtins (Tbl.ofNames env.names) isAnd false last es).log.filter
+      (fun p => keep p.1)) P
+  | isAnd, last, [], v, P, hne, _, _, _, _, _ => by simp at hne
+  | isAnd, last, [e], v, P, _, hw, hs, ho, hi, h => by
       simp only [pyEvalBool] at h
       simp only [wfList, Bool.and_eq_true] at hw
+      simp only [orderFaithfulList, Bool.and_eq_true] at hs
       simp only [outerIdsList, innerIdsList, List.forall_mem_append] at ho hi
-      obtain ⟨ia, ib⟩ := visit_py ops env keep e v P hw.1 ho.1 hi.1 h
+      obtain ⟨ia, ib⟩ := visit_py ops env keep strict e v P hw.1 (fun h => (hs h).1) ho.1 hi.1 h
       simp only [visitBool, VRes.bind_of_ok ia]
-      simp [ib, List.filter_append]
-  | isAnd, last, e :: e2 :: rest, v, P, _, hw, ho, hi, h => by
+      simp [List.filter_append]
+      logrel
+  | isAnd, last, e :: e2 :: rest, v, P, _, hw, hs, ho, hi, h => by
       simp only [pyEvalBool, Except.bind_eq_ok_iff, pure, Except.pure] at h
       obtain ⟨⟨v1, l1⟩, h1, b, hb, h⟩ := h
-      rw [wfList] at hw; rw [outerIdsList] at ho; rw [innerIdsList] at hi
-      simp only [Bool.and_eq_true, List.forall_mem_append] at hw ho hi
-      obtain ⟨ia, ib⟩ := visit_py ops env keep e v1 l1 hw.1 ho.1 hi.1 h1
+      rw [wfList] at hw; rw [outerIdsList] at ho; rw [innerIdsList] at hi; rw [orderFaithfulList] at hs
+      simp only [Bool.and_eq_true, List.forall_mem_append] at hw hs ho hi
+      obtain ⟨ia, ib⟩ := visit_py ops env keep strict e v1 l1 hw.1 (fun h => (hs h).1) ho.1 hi.1 h1
       rw [visitBool]
       simp only [VRes.bind_of_ok ia]
       simp at hb
@@ -217,36 +644,42 @@ theorem visitBool_py (ops : Ops) (env : Env) (keep : Nat → Bool) : ∀ (isAnd 
         simp at hc'
         simp only [hc, if_true, Except.ok.injEq, Prod.mk.injEq] at h
         obtain ⟨rfl, rfl⟩ := h
-        simp [hb, hc', ib, List.filter_append]
+        simp [hb, hc', List.filter_append]
+        logrel
       · have hc' : ¬(isAnd = true ∧ b = false ∨ isAnd = false ∧ b = true) := by
           cases isAnd <;> cases b <;> simp at hc ⊢
         simp only [hc, Bool.false_eq_true, if_false, Except.bind_eq_ok_iff, Except.ok.injEq, Prod.mk.injEq] at h
         obtain ⟨⟨r, l2⟩, h2, rfl, rfl⟩ := h
-        obtain ⟨ja, jb⟩ := visitBool_py ops env keep isAnd (some v1) (e2 :: rest) r l2 rfl hw.2 ho.2 hi.2 h2
-        simp [hb, hc', ib, ja, jb, List.filter_append]
-theorem visitCmp_py (ops : Ops) (env : Env) (keep : Nat → Bool) : ∀ (left : Val) (result : Option Val)
+        obtain ⟨ja, jb⟩ := visitBool_py ops env keep strict isAnd (some v1) (e2 :: rest) r l2 rfl hw.2
+          (fun h => (hs h).2) ho.2 hi.2 h2
+        simp [hb, hc', ja, List.filter_append]
+        logrel
+theorem visitCmp_py (ops : Ops) (env : Env) (keep : Nat → Bool) (strict : Bool) : ∀ (left : Val) (result : Option Val)
     (es : List (CmpOp × Expr)) (v : Val) (P : Log),
-    es.isEmpty = false → wfCmp es = true →
+    es.isEmpty = false → wfCmp es = true → (strict = true → orderFaithfulCmp es = true) →
     (∀ i ∈ outerIdsCmp es, keep i = true) → (∀ i ∈ innerIdsCmp es, keep i = false) →
     pyEvalCmp ops env left es = .ok (v, P) →
     (visitCmp ops env.builtins (Tbl.ofNames env.names) false (some left) result es).out = .ok (some v) ∧
-    (visitCmp ops env.builtins (Tbl.ofNames env.names) false (some left) result es).log.filter (fun p => keep p.1) = P
-  | left, result, [], v, P, hne, _, _, _, _ => by simp at hne
-  | left, result, [(op, e)], v, P, _, hw, ho, hi, h => by
+    LogRel strict ((visitCmp ops env.builtins (Tbl.ofNames env.names) false (some left) result es).log.filter
+      (fun p => keep p.1)) P
+  | left, result, [], v, P, hne, _, _, _, _, _ => by simp at hne
+  | left, result, [(op, e)], v, P, _, hw, hs, ho, hi, h => by
       simp only [pyEvalCmp, Except.bind_eq_ok_iff, pure, Except.pure, Except.ok.injEq, Prod.mk.injEq] at h
       obtain ⟨⟨v1, l1⟩, h1, r, hr, rfl, rfl⟩ := h
       simp only [wfCmp, Bool.and_eq_true] at hw
+      simp only [orderFaithfulCmp, Bool.and_eq_true] at hs
       simp only [outerIdsCmp, innerIdsCmp, List.forall_mem_append] at ho hi
-      obtain ⟨ia, ib⟩ := visit_py ops env keep e v1 l1 hw.1 ho.1 hi.1 h1
+      obtain ⟨ia, ib⟩ := visit_py ops env keep strict e v1 l1 hw.1 (fun h => (hs h).1) ho.1 hi.1 h1
       simp only [visitCmp, VRes.bind_of_ok ia]
       simp at hr
-      simp [hr, ib, List.filter_append]
-  | left, result, (op, e) :: (op2, e2) :: rest, v, P, _, hw, ho, hi, h => by
+      simp [hr, List.filter_append]
+      logrel
+  | left, result, (op, e) :: (op2, e2) :: rest, v, P, _, hw, hs, ho, hi, h => by
       simp only [pyEvalCmp, Except.bind_eq_ok_iff, pure, Except.pure] at h
       obtain ⟨⟨v1, l1⟩, h1, r, hr, b, hb, h⟩ := h
-      rw [wfCmp] at hw; rw [outerIdsCmp] at ho; rw [innerIdsCmp] at hi
-      simp only [Bool.and_eq_true, List.forall_mem_append] at hw ho hi
-      obtain ⟨ia, ib⟩ := visit_py ops env keep e v1 l1 hw.1 ho.1 hi.1 h1
+      rw [wfCmp] at hw; rw [outerIdsCmp] at ho; rw [innerIdsCmp] at hi; rw [orderFaithfulCmp] at hs
+      simp only [Bool.and_eq_true, List.forall_mem_append] at hw hs ho hi
+      obtain ⟨ia, ib⟩ := visit_py ops env keep strict e v1 l1 hw.1 (fun h => (hs h).1) ho.1 hi.1 h1
       rw [visitCmp]
       simp only [VRes.bind_of_ok ia]
       simp at hr hb
@@ -254,12 +687,15 @@ theorem visitCmp_py (ops : Ops) (env : Env) (keep : Nat → Bool) : ∀ (left : 
       | false =>
         simp only [Bool.not_false, if_true, Except.ok.injEq, Prod.mk.injEq] at h
         obtain ⟨rfl, rfl⟩ := h
-        simp [hr, hb, ib, List.filter_append]
+        simp [hr, hb, List.filter_append]
+        logrel
       | true =>
         simp only [Bool.not_true, Bool.false_eq_true, if_false, Except.bind_eq_ok_iff, Except.ok.injEq, Prod.mk.injEq] at h
         obtain ⟨⟨r2, l2⟩, h2, rfl, rfl⟩ := h
-        obtain ⟨ja, jb⟩ := visitCmp_py ops env keep v1 (some r) ((op2, e2) :: rest) r2 l2 rfl hw.2 ho.2 hi.2 h2
-        simp [hr, hb, ib, ja, jb, List.filter_append]
+        obtain ⟨ja, jb⟩ := visitCmp_py ops env keep strict v1 (some r) ((op2, e2) :: rest) r2 l2 rfl hw.2
+          (fun h => (hs h).2) ho.2 hi.2 h2
+        simp [hr, hb, ja, List.filter_append]
+        logrel
 end
 
 end Icontract.Ex
